@@ -116,7 +116,10 @@ def sim_case(draw, schedulers, tier="quick", max_pipes=12, single_seg=False, for
         # loaded pools: many pipelines in a burst, so that retries and late arrivals meet partially used pools
         npipes = draw(st.integers(8, 24))
         params["cpus_per_pool"] = draw(st.sampled_from([6, 5, 8, 10, 4, 16, 7]))
-        params["ram_gb_per_pool"] = draw(st.sampled_from([100, 30, 64, 20, 256]))
+        params["ram_gb_per_pool"] = draw(st.sampled_from([100, 30, 64, 20, 256, 12.5, 37.75]))
+        if draw(st.integers(0, 3)) == 0:
+            # fractional pool RAM barely above one GB per CPU: the last container of a full pool gets a fractional leftover
+            params["cpus_per_pool"], params["ram_gb_per_pool"] = draw(st.sampled_from([(5, 5.5), (6, 6.8), (10, 12.5), (5, 5.75)]))
     arrivals = []
     burst_tick = draw(st.integers(0, max(nticks, 1)))
     for _ in range(npipes):
